@@ -263,6 +263,10 @@ def gen_scenarios(ctx):
         init = block(3, 1, 0, 3 * tsize)
         ops = [("o", 2), ("W", tsize, 1, tuple((0, counts[q]) for q in range(P))), ("c",)]
         S.append(Scen(P, ops, init=init, family="append-not-at-end", cfgs="AC", **rs()))
+    # the file ends inside an element (F-C12g in configuration B: MPI_UNDEFINED as ocount)
+    for P in (1, 2):
+        for tsize in (4, 8):
+            S.append(Scen(P, [("o", 0), ("r", tsize, 10 - tsize + 1, 1), ("r", tsize, 0, 3), ("c",)], init=b"0123456789", family="eof-inside-element", cfgs="ABC", **rs()))
     for (fn, k, e, sh) in [(FTELL, 0, EIO, 0), (FSEEK, 0, EINVAL, 0), (FSEEK, 1, EIO, 0), (FWRITE, 0, ENOSPC, 0), (FWRITE, 0, ENOSPC, 1),
                            (FWRITE, 0, ENOSPC, 2), (FWRITE, 0, 0, 1), (FTELL, 1, EIO, 0), (FWRITE, 1, EIO, 0)]:
         for P in (1, 2):
